@@ -318,7 +318,7 @@ PROPS = {
         assumptions=["a persistent failure is tied to the file (device, inode), not to the descriptor number"],
         jobs=[
             dict(harness="crash", prop="c16_align", kind="enum"),
-            dict(harness="crash", prop="c16_faults", cases=(480, 6000), size=(30, 60)),
+            dict(harness="crash", prop="c16_faults", cases=(480, 1600), size=(30, 40)),
         ],
     ),
 
